@@ -225,7 +225,7 @@ func (b *ByteBuffer) Read(dst []byte) (int, error) {
 		return 0, nil
 	}
 
-	if b.ri == 0 {
+	if b.ri == b.si {
 		return 0, io.EOF
 	}
 
